@@ -278,6 +278,7 @@ class RealTLSPeer:
         self.auto_close_reply = False
         self._replied = False
         self._scheduled = False
+        self._stuck = False
         self.want_fin = False
         self.sim_closed = False
         if not server_side:
@@ -287,15 +288,20 @@ class RealTLSPeer:
     # ---- SimSelector interface
     def sim_events(self) -> int:
         self.pump()
-        if self.lib_sock.fileno() < 0:
+        # poll by descriptor number: ssl.wrap_socket() detaches the original socket object
+        try:
+            r, w_, _ = _select.select([self.lib_fd], [self.lib_fd], [], 0)
+        except (OSError, ValueError):
             return 0
-        r, w_, _ = _select.select([self.lib_sock], [self.lib_sock], [], 0)
         return (EVENT_READ if r else 0) | (EVENT_WRITE if w_ else 0)
 
     def pump(self) -> None:
         """read whatever the library wrote; feed the engine"""
         if self.sim_closed:
             return
+        if self._stuck:
+            self._stuck = False
+            self._schedule()
         while True:
             try:
                 data = self.far.recv(1 << 16)
@@ -350,12 +356,19 @@ class RealTLSPeer:
                 cut = True
             if k:
                 try:
-                    self.far.send(bytes(self.out_pending[:k]))
+                    k = self.far.send(bytes(self.out_pending[:k]))
+                except BlockingIOError:
+                    # the kernel buffer of the real socketpair is full (many tiny writes): retry from the next pump()
+                    self._stuck = True
+                    return
                 except OSError:
-                    pass
+                    self.out_pending.clear()
+                    return
                 del self.out_pending[:k]
                 self.sent_to_lib += k
                 self.world.log("vis", "real", k)
+                if cut and self.sent_to_lib < (self.fin_at or 0):
+                    cut = False
             if cut:
                 self.out_pending.clear()
                 self._fin()
